@@ -178,7 +178,7 @@ func cmpTyped(m *Model, t T, orig, got any, path string, out *[]Diff) {
 					*out = append(*out, Diff{Path: fp, Class: cls, Detail: fmt.Sprintf("%s is in the original but not in the re-encoding", short(ov)), FieldKind: f.Type.Kind})
 				case !oin && gin:
 					cls := "extra"
-					if rt := m.Resolve(f.Type); f.Type.Const != nil || rt.Const != nil {
+					if rt := m.Resolve(f.Type); f.Type.Const != nil || rt.Const != nil || (rt.Kind == KEnum && len(rt.Members) == 1) {
 						cls = "constant-materialised"
 					} else if f.Type.Default != nil {
 						if _, same := jsonEq(rawAny(f.Type.Default), gv, fp); same {
@@ -243,6 +243,8 @@ func cmpTyped(m *Model, t T, orig, got any, path string, out *[]Diff) {
 			cls = "null-becomes-empty-array"
 		} else if mm, isMap := got.(map[string]any); isMap && len(mm) == 0 && orig == nil {
 			cls = "null-becomes-empty-map"
+		} else if _, isMap := got.(map[string]any); isMap && orig == nil && t.Kind == KStruct {
+			cls = "null-becomes-object"
 		}
 		*out = append(*out, Diff{Path: path, Class: cls, Detail: d, FieldKind: t.Kind})
 	}
